@@ -102,6 +102,41 @@ class Rendered:
         self.fex_order = order
         return out
 
+    def batch_layout(self):
+        """cusparse only: where system number `cur` of a batch lives.  Returns a list of (what, cur, offset, expected) for
+        cur = 0..3: the kernels' own offset expressions evaluated with the macros of naunet_macros.h, next to the offset the
+        N_Vector / batched CSR matrix layout requires (NEQUATIONS entries per system, NNZ stored entries per system)."""
+        from . import ceval
+        if self.backend != "cusparse":
+            return []
+        env0 = {k: int(v) for k, v in self.macros.items() if re.fullmatch(r"-?\d+", str(v))}
+        env0.setdefault("NEQUATIONS", self.neqns)
+        out = []
+        ftext = _read(self.path, "src/naunet_fex.cu", "src/naunet_fex.cpp")
+        jtext = _read(self.path, "src/naunet_jac.cu", "src/naunet_jac.cpp")
+        for what, body, var, per in (("fex-y", cparse.function_body(ftext, "FexKernel"), "yistart", self.neqns),
+                                     ("jac-y", cparse.function_body(jtext, "JacKernel"), "yistart", self.neqns),
+                                     ("jac-data", cparse.function_body(jtext, "JacKernel"), "jistart", self.nnz)):
+            m = re.search(r"\bint\s+" + var + r"\s*=\s*([^;]+);", body)
+            if not m:
+                raise cparse.CParseError(f"{what}: no `int {var} = ...;` in the kernel")
+            ast = cparse.parse_expr(m.group(1))
+            for cur in range(4):
+                got = ceval.ev(ast, dict(env0, cur=cur))
+                out.append((what, cur, got, cur * per))
+            base = re.search(r"realtype\s*\*\s*y_cur\s*=\s*([^;]+);", body)
+            if not base or "".join(base.group(1).split()) != "y+yistart":
+                raise cparse.CParseError(f"{what}: y_cur is not y + yistart")
+        for fn, text in (("Fex", ftext),):
+            body = cparse.function_body(text, fn)
+            m = re.search(r"\bint\s+nsystem\s*=\s*([^;]+);", body)
+            if m and "lrw" in m.group(1):     # the number of systems derived from the vector length
+                ast = cparse.parse_expr(m.group(1))
+                for nsys in (1, 3):
+                    got = ceval.ev(ast, dict(env0, lrw=nsys * self.neqns))
+                    out.append((fn + "-nsystem", nsys, got, nsys))
+        return out
+
     def slot_of(self, name: str) -> int:
         name = name.strip()
         if name in self.idx:
